@@ -170,6 +170,58 @@ def dcops(draw, min_vars=1, max_vars=6, max_dom=3, min_dom=1, max_constraints=7,
             "constraints": constraints}
 
 
+@st.composite
+def tie_dcops(draw, min_vars=3, max_vars=5):
+    """Connected binary DCOPs where every cost is 0, 1 or 2 (equal gains between neighbours, between a pair and a third
+    variable, between two offers are the rule, not the exception) and every variable has a domain of its own whose
+    values belong to no other variable (a value that travels to the wrong variable is visible at once)."""
+    n = draw(st.integers(min_vars, max_vars))
+    names = draw(st.lists(st.sampled_from(NAME_POOL), min_size=n, max_size=n, unique=True))
+    domains, variables, doms = {}, [], {}
+    for i, nm in enumerate(names):
+        k = draw(st.sampled_from([2, 2, 3]))
+        style = draw(st.sampled_from(["int", "str", "mixed"]))
+        vals = [10 * (i + 1) + j if style == "int" or (style == "mixed" and j != 1) else "%s%d" % ("pqrst"[i], j)
+                for j in range(k)]
+        domains["d%d" % i] = vals
+        doms[nm] = vals
+        variables.append({"name": nm, "domain": "d%d" % i, "cost": None,
+                          "initial": draw(st.one_of(st.none(), st.sampled_from(vals)))})
+    constraints = []
+    order = draw(st.permutations(names))
+    edges = set()
+    for i in range(1, n):
+        edges.add((order[draw(st.integers(0, i - 1))], order[i]))
+    for _ in range(draw(st.integers(0, 2))):
+        a, b = draw(st.lists(st.sampled_from(names), min_size=2, max_size=2, unique=True))
+        if (a, b) not in edges and (b, a) not in edges:
+            edges.add((a, b))
+    for a, b in sorted(edges):
+        constraints.append({"name": "c%d" % len(constraints), "scope": [a, b], "kind": "matrix",
+                            "table": nested_table(draw, [len(doms[a]), len(doms[b])], tie_costs)})
+    return {"objective": draw(st.sampled_from(["min", "max"])), "domains": domains, "variables": variables,
+            "constraints": constraints}
+
+
+def lift_big_m(desc, m=10 ** 18):
+    """Turn every all-integer cost table into 'big-M or 0, plus a small integer' (odd entries get the penalty m):
+    the classical encoding of hard constraints next to soft preferences.  Costs, and differences of costs, then need
+    more than 53 bits.  -> True if a table was changed."""
+    changed = False
+
+    def ints(t):
+        return all(ints(x) for x in t) if isinstance(t, list) else (isinstance(t, int) and not isinstance(t, bool))
+
+    def lift(t):
+        return [lift(x) for x in t] if isinstance(t, list) else (m if t % 2 else 0) + t
+
+    for c in desc["constraints"]:
+        if c["kind"] == "matrix" and ints(c["table"]):
+            c["table"] = lift(c["table"])
+            changed = True
+    return changed
+
+
 def slow_sets():
     """Indices (mod #computations) of computations the scheduler serves last; mostly empty."""
     return st.one_of(st.just([]), st.just([]), st.lists(st.integers(0, 7), min_size=1, max_size=2))
